@@ -77,17 +77,23 @@ impl<T: Copy> Block for RationalResampler<T> {
         let mut taken = 0;
         let mut out_full = false;
         'outer: for s in i.iter() {
-            taken += 1;
-            self.counter += self.interp;
+            // A positive counter at this point means the previous call ran out
+            // of output space in the middle of this sample: it still owes
+            // copies, and its share has already been added.
+            if self.counter <= 0 {
+                self.counter += self.interp;
+            }
             while self.counter > 0 {
-                o.slice()[opos] = *s;
-                self.counter -= self.deci;
-                opos += 1;
                 if opos == o.len() {
+                    // Sample not finished. Leave it in the input.
                     out_full = true;
                     break 'outer;
                 }
+                o.slice()[opos] = *s;
+                self.counter -= self.deci;
+                opos += 1;
             }
+            taken += 1;
         }
         i.consume(taken);
         o.produce(opos, &[]);
